@@ -70,6 +70,10 @@ Schema(s) ==
          << DSec("t", {"MULTI","TITLE"}, << DInt("x", "5"), DPtr("p") >>) >>
     [] s = 8 -> (* two lists with defaults: interplay of consecutive list assignments *)
          << DIntList("la", <<"1","2">>), DStrList("lb", <<"x">>) >>
+    [] s = 20 -> (* one scalar: room for long texts over a small alphabet *)
+         << DInt("i", "7") >>
+    [] s = 21 -> (* a section option that carries the case-insensitivity flag itself, in a case-sensitive context *)
+         << DSec("t", {"MULTI","TITLE","NOCASE"}, << DInt("x", "5") >>), DInt("i", "7") >>
     [] s = 19 -> (* validation callbacks on a section, on an option inside it and on a top-level scalar *)
          << WithCb(DSec("m", {"MULTI"}, << WithCb(DInt("x", "5"), {"valid"}) >>), {"valid"}),
             WithCb(DInt("i", "7"), {"valid"}) >>
@@ -111,8 +115,10 @@ ValuePool(s) ==
     [] s = 17 -> {"1"}
     [] s = 18 -> {"1"}
     [] s = 19 -> {"1"}
+    [] s = 20 -> {"1"}
+    [] s = 21 -> {"1"}
 TitlePool(s) == IF s \in {2, 3, 4} THEN (IF Mode \in {"ignore", "ignorecmt"} THEN {"a"} ELSE {"a", "b"})
-                ELSE IF s = 7 THEN {"a", "A"} ELSE IF s \in {9, 15} THEN {"a"} ELSE {}
+                ELSE IF s = 7 THEN {"a", "A"} ELSE IF s \in {9, 15, 21} THEN {"a"} ELSE {}
 
 (* ------------------------------------------------------------------ *)
 (* token alphabet, depending on where the parser is                    *)
@@ -124,7 +130,9 @@ NamesHere == LET f == Top(ps) IN {f.sec.opts[i].name : i \in 1..Len(f.sec.opts)}
 StrTokens ==
   {TkStr(v) : v \in NamesHere \cup {"zz"} \cup ValuePool(sid) \cup TitlePool(sid)
                    (* an undeclared name that looks like a path into a section that does not exist *)
-                   \cup (IF sid = 16 THEN {"zz|x"} ELSE {})}
+                   \cup (IF sid = 16 THEN {"zz|x"} ELSE {})
+                   (* a declared name in the other letter case: undeclared in a case-sensitive context *)
+                   \cup (IF sid = 21 THEN {"T"} ELSE {})}
 
 (* line breaks: at most NlBudget newlines per text keeps the space finite *)
 NlBudget == 2
@@ -145,7 +153,7 @@ MultiLineTokens == IF Mode = "lines" /\ NlUsed < NlBudget THEN {[TkStr("p\nq") E
 NlChoices == IF Mode \in {"lines", "cblines"} /\ NlUsed < NlBudget THEN {0, 1} ELSE {0}
 
 Alphabet ==
-  {[t EXCEPT !.nl = n] : t \in {TkP(k) : k \in Punct} \cup StrTokens \cup CommentTokens \cup MultiLineTokens,
+  {[t EXCEPT !.nl = n] : t \in {TkP(k) : k \in (IF sid = 20 THEN {"=", "{", "}"} ELSE Punct)} \cup StrTokens \cup CommentTokens \cup MultiLineTokens,
                          n \in NlChoices}
 
 (* ------------------------------------------------------------------ *)
